@@ -161,7 +161,9 @@ def capillary_rise(
             if (dth > 0) and ((zBot - prof.dz[compi] / 2) < z_gw):
                 dthMax = Krel * Df * MaxCR / (1000 * prof.dz[compi])
                 if dth >= dthMax:
-                    NewCond.th[compi] = NewCond.th[compi] + dthMax
+                    # dth is rounded to 4 decimals and may exceed the real room by up to 0.00005:
+                    # never fill above the adjusted field capacity
+                    NewCond.th[compi] = min(NewCond.th[compi] + dthMax, NewCond.th_fc_Adj[compi])
                     CRcomp = dthMax * 1000 * prof.dz[compi]
                     MaxCR = 0
                 else:
